@@ -240,6 +240,7 @@ func checkC23(p *Prog, r *Report) {
 		})
 		r.check(zero, rule, "seeds start at depth 0", p.pos(findRev.Pos()), fnName(findRev), "node.depth is the constant 0 for every seed", "a seed is pushed with a non-zero depth: edges between a rule and its own hidden sub-targets are charged")
 	}
+	p.revdepsIndexComplete(r, "E5.revdeps-index-complete")
 	// (4)
 	rule = "E5.revdeps-depth-accounting"
 	{
@@ -301,6 +302,32 @@ func checkC23(p *Prog, r *Report) {
 			})
 		}
 		r.check(guarded, rule, "no charge inside one visible rule", p.pos(frd.Pos()), fnName(frd), "depth+1 only on hidden || !isSameTarget", "edges between a rule and its own hidden sub-targets are charged a level (or never charged)")
+	}
+}
+
+// revdepsIndexComplete: the reverse-dependency index is built from the declared dependencies of every target of the
+// graph; options such as includeSubrepos decide what is *shown*, never which edges exist (the search has to pass
+// through subrepo and hidden targets to reach what lies behind them).
+func (p *Prog) revdepsIndexComplete(r *Report, rule string) {
+	br := p.Fn("query", "buildRevdeps")
+	if br == nil {
+		r.unresolved(rule, "query.buildRevdeps")
+		return
+	}
+	n := 0
+	for _, l := range sliceRangeLoops(br) {
+		if c, ok := l.over.(*ssa.Call); !ok || calleeName(&c.Call) != "(*core.BuildGraph).AllTargets" {
+			continue
+		}
+		n++
+		skips := l.iterationSkips(func(j ssa.Instruction) bool {
+			cc := callCommon(j)
+			return cc != nil && calleeName(cc) == "(*core.BuildTarget).DeclaredDependencies"
+		})
+		r.check(!skips, rule, "every target's declared dependencies are indexed", p.pos(br.Pos()), fnName(br), "no iteration over AllTargets() can finish without reading the target's DeclaredDependencies()", "buildRevdeps leaves some targets out of the reverse-dependency index (e.g. everything inside subrepos when they are not to be shown): the search cannot pass through them, so main-repo targets that depend on a changed target via a subrepo target are not reported")
+	}
+	if n == 0 {
+		r.unresolved(rule, "loop over graph.AllTargets() in query.buildRevdeps")
 	}
 }
 
